@@ -47,7 +47,8 @@ func (r *zzRecReader) MoreUnprocessedData() (bool, error) {
 	return r.pos < len(r.units), nil
 }
 
-var zzDigits = []string{"0", "1", "2", "3", "4", "5", "6", "7", "8", "9"}
+var zzDigits = []string{"0", "1", "2", "3", "4", "5", "6", "7", "8", "9", "10", "11", "12", "13", "14", "15", "16", "17", "18", "19",
+	"20", "21", "22", "23", "24", "25", "26", "27", "28", "29", "30", "31"}
 
 func (r *zzRecReader) ReadAndMatch(decl RecDecl, createIDR bool) (bool, *idr.Node, error) {
 	zz.Assert(r.pos < len(r.units), "RecReader contract: ReadAndMatch only called when data is available")
@@ -374,4 +375,61 @@ func zzTreeSize(n *idr.Node) int {
 		k += zzTreeSize(c)
 	}
 	return k
+}
+
+// C05HierDeep: nesting deeper than the reader's pre-allocated stack (10 frames): a chain of D
+// declarations, each the only child of the previous one, and one unit per level. The target
+// (the outermost or the innermost record) is delivered with the whole chain below it attached,
+// then EOF.
+func C05HierDeep() {
+	D := zz.Param("D", 12)
+	names := "abcdefghijklmnopqrstuvwxyz"
+	innermost := zz.NondetBool("targetInnermost")
+	var decl *zzDecl
+	for i := D - 1; i >= 0; i-- {
+		d := &zzDecl{name: names[i : i+1], min: 1, max: 1}
+		if decl != nil {
+			d.kids = []RecDecl{decl}
+		}
+		if (innermost && i == D-1) || (!innermost && i == 0) {
+			d.target = true
+		}
+		decl = d
+	}
+	units := []byte(names[:D])
+	rr := &zzRecReader{units: units, consumed: make([]int, len(units)), failAt: -1}
+	r := NewHierarchyReader([]RecDecl{decl}, rr, nil)
+	n, err := r.Read()
+	zz.Assert(err == nil && n != nil, "the target is delivered")
+	if n != nil {
+		if innermost {
+			zz.Assert(n.Data == names[D-1:D], "the innermost record")
+			depth := 0
+			for p := n; p.Parent != nil; p = p.Parent {
+				depth++
+			}
+			zz.Assert(depth == D, "attached under the whole chain of its ancestors")
+		} else {
+			zz.Assert(n.Data == "a", "the outermost record")
+			depth, p := 1, n
+			for {
+				var next *idr.Node
+				for c := p.FirstChild; c != nil; c = c.NextSibling {
+					if c.Type == idr.ElementNode {
+						next = c
+					}
+				}
+				if next == nil {
+					break
+				}
+				p = next
+				depth++
+			}
+			zz.Assert(depth == D, "with the whole chain of its descendants")
+		}
+		r.Release(n)
+	}
+	_, err = r.Read()
+	zz.Assert(err == io.EOF, "then EOF")
+	zz.Cover("deep")
 }
